@@ -151,6 +151,33 @@ def exec : Prog → Profile → Profile × Obs
       let restored := (seterr p1.state p.state).getD p1.state
       ({ p1 with state := restored }, .errstate p.state (some (s', ob)) restored)
 
+/-! ### which kinds fire on a table (the seven registered test functions of err.py) -/
+
+/-- the facts about a table the tests look at -/
+structure Facts where
+  nrows : Nat
+  ncols : Nat
+  obsIds : List String
+  sampIds : List String
+  omdLen : Option Nat       -- none = no observation metadata
+  smdLen : Option Nat
+  deriving Repr
+
+def distinctCount : List String → Nat
+  | [] => 0
+  | a :: t => if t.contains a then distinctCount t else distinctCount t + 1
+
+/-- `empty`: no sample ids or no observation ids; `*size`: matrix dimension ≠ number of ids;
+`*dup`: matrix dimension ≠ number of distinct ids; `*mdsize`: metadata present and its length ≠ dimension -/
+def firing (f : Facts) : List Kind :=
+  (if f.sampIds.isEmpty || f.obsIds.isEmpty then ["empty"] else []) ++
+  (if f.nrows != distinctCount f.obsIds then ["obsdup"] else []) ++
+  (match f.omdLen with | some l => if f.nrows != l then ["obsmdsize"] else [] | none => []) ++
+  (if f.nrows != f.obsIds.length then ["obssize"] else []) ++
+  (if f.ncols != distinctCount f.sampIds then ["sampdup"] else []) ++
+  (match f.smdLen with | some l => if f.ncols != l then ["sampmdsize"] else [] | none => []) ++
+  (if f.ncols != f.sampIds.length then ["sampsize"] else [])
+
 /-! ### The property, stated on observations only -/
 
 /-- what a successful `seterr(**kw)` must leave behind, kind by kind -/
@@ -251,8 +278,15 @@ partial def obsToJson : Obs → Json
         | some (i, ob) => Json.mkObj [("inside", kwToJson i), ("body", obsToJson ob)]),
       ("after", kwToJson a)]
 
-/-- request: {"prog":…, "state":[[k,r]…], "obs":…}  →  {"holds":…, "model":…, "agree":…} -/
+def asFacts (j : Json) : R Facts := do
+  pure { nrows := (← natF j "nrows"), ncols := (← natF j "ncols"), obsIds := (← listF asStr j "obs_ids"),
+         sampIds := (← listF asStr j "samp_ids"), omdLen := (← optF asNat j "omd_len"), smdLen := (← optF asNat j "smd_len") }
+
+/-- request: {"prog":…, "state":[[k,r]…], "obs":…}  →  {"holds":…, "model":…, "agree":…}
+    or {"facts": …} → {"firing": [kinds]} -/
 def handle (req : Json) : R Json := do
+  if let some fj := optFld req "facts" then
+    return Json.mkObj [("firing", strsToJson (firing (← asFacts fj)))]
   let prog ← asProg (← fld req "prog")
   let st ← asKw (← fld req "state")
   let obs ← asObs (← fld req "obs")
